@@ -83,7 +83,7 @@ PROPS = {
 FINDING_CLASSES = {}
 
 NOT_YET = {}
-HOOK_COMMITS = []
+HOOK_COMMITS = ["d559651"]
 
 
 # ---------------------------------------------------------------------------
@@ -178,5 +178,62 @@ PROPS["C14"] = dict(
         ("cbor-enc", dict(cmp=cmp_c14, nontrivial=nt_c14, what="cbor.NewEncoder: verdict (done/err/panic, token index) vs TokGrammar.ctx_run key_cbor and vs the CborEnc model")),
         ("json-enc", dict(cmp=cmp_c14, nontrivial=nt_c14, what="json.NewEncoder: verdict vs ctx_run key_json (representable tokens) / vs JsonEnc model (sequences with bytes, NaN, Inf)")),
         ("pretty-enc", dict(cmp=cmp_c14, nontrivial=nt_c14, what="pretty.NewEncoder: verdict vs ctx_run key_cbor and the Pretty model; deep nesting up to 2000")),
+    ],
+)
+
+
+# ---------------------------------------------------------------------------
+# json-dec: impl = "<item> ;; <item> ... | ej: v= lv= acc= agree= unrep="   item = "ok @<consumed> <tokens>" | "err <class> <n>"
+#           model = "<item> ;; <item> ..."
+# ---------------------------------------------------------------------------
+import re as _re
+
+_EJ = _re.compile(r"ej: v=(\d) lv=(\d) acc=(\d) agree=(\S) unrep=(\d)")
+
+
+def _norm_items(s):
+    out = []
+    for it in s.split(" ;; "):
+        out.append("err" if it.startswith("err") else it)
+    return out
+
+
+def cmp_c05_dec(payload, impl, model):
+    left, _, ej = impl.partition(" | ej: ")
+    m = _EJ.search("ej: " + ej)
+    if m is None:
+        return mism("harness oracle fields missing: %s" % impl[:100])
+    v, lv, acc, agree, unrep = m.groups()
+    if left.startswith("panic") or " ;; panic" in left:
+        return viol("decoder panicked")
+    if v == "1" and unrep == "0" and acc == "0":
+        return viol("valid JSON (per encoding/json) not accepted: %s" % left[:100])
+    if v == "1" and unrep == "0" and agree == "0":
+        return viol("valid JSON decoded to a different value than encoding/json assigns: %s" % left[:100])
+    if lv == "0" and acc == "1":
+        return viol("text that is not valid JSON even after deleting trailing commas was accepted: %s" % left[:100])
+    # model vs implementation on the first item (ok/err, tokens, bytes consumed) and on how the rest frames
+    if _norm_items(left) != _norm_items(model):
+        li, mi = _norm_items(left), _norm_items(model)
+        if li[0] != mi[0]:
+            return viol("first item: decoder gave %s, the model (proved equal to the RFC 8259 reference reading) gives %s" % (li[0][:100], mi[0][:100]))
+        return mism("later items differ: impl %s model %s" % (left[:100], model[:100]))
+    return None
+
+
+def nt_c05(payload, impl, model):
+    return len(payload) >= 6
+
+
+PROPS["C05"] = dict(
+    coq="Properties_C05",
+    level_text="Proved in Coq for all byte strings: the decoder automaton model returns exactly what the recursive-descent reference reading of RFC 8259 (with the one trailing-comma leniency) returns - same tokens and rest, or an error - and never runs out of fuel. The reference reading itself is validated on every run against Go's encoding/json (validity with/without the leniency, and token-by-token value agreement incl. numbers) on all generated texts. Tied to json.Decoder by the correspondence run (all strings <= 5 quick / 7 thorough over a 24-symbol alphabet as a pruned prefix tree, all \\\\uXXXX, generated documents with edits and prefixes).",
+    level_note="Trusted: Coq kernel, extraction, OCaml driver, Go harness, encoding/json and strconv as validators of the spec; the decimal->float64 conversion (JsonFloat.nearest) is an executable stand-in for strconv.ParseFloat validated by correspondence, not proved against IEEE-754. No axioms.",
+    rule="texts generated as described per suite; non-trivial = at least 3 bytes; distinct by payload",
+    trusted_base=TB_COMMON + ["encoding/json (Valid, Decoder.Token with UseNumber) and strconv as independent oracles inside the harness"],
+    assumptions=["acceptance of a text = one item decoded and only whitespace left (stream decoder)", "valid JSON numbers outside int64/uint64/float64 range are exempt (unrep=1): the decoder reports an error for them"],
+    suites=[
+        ("json-dec", dict(cmp=cmp_c05_dec, nontrivial=nt_c05, timeout=3600,
+                          what="json.NewDecoder(r).Step vs JsonDec.jdec_run (items, tokens, consumed bytes via the verif hook) and vs encoding/json")),
     ],
 )
